@@ -3,7 +3,22 @@ package main
 import "fmt"
 
 func init() {
-	generators["HIST"] = genHIST
+	generators["HIST"] = func(c *Ctx) { genHist(c, "") }
+	for _, id := range []string{"C05", "C06", "C07", "C08"} {
+		id := id
+		generators[id] = func(c *Ctx) { genHist(c, id) }
+		replayers["tmpl.hist."+id] = func(a []string) string { return runHistoryReal(a[0]) }
+	}
+}
+
+// extra bodies exercising every node kind the installed parser accepts (C08)
+var nodeKindBodies = []string{
+	"{{range .L}}{{break}}{{end}}", "{{range .L}}{{if .}}{{continue}}{{end}}x{{end}}", "{{/* comment */}}text",
+	"{{with .M}}a{{else with .X}}b{{end}}", "{{if .C}}a{{else if .D}}b{{else}}c{{end}}", "{{$x := .X}}<p>{{$x}}</p>",
+	"{{range $i, $e := .L}}{{$e}}{{end}}", "{{block \"blk\" .}}<i>{{.X}}</i>{{end}}", "{{.X | print}}", "{{print .X .Y}}",
+	"{{.X | html}}", "{{html .X}}", "{{.X | urlquery}}", "<a href=\"{{.X | urlquery}}\">", "{{len .L}}", "{{index .L 0}}",
+	"{{template \"h0\"}}", "{{- .X -}}", "{{nil}}", "{{1}}", "{{\"str\"}}", "{{true}}", "{{.M.X.Y}}", "{{with $y := .M}}{{$y.X}}{{end}}",
+	"<script>`${`{{.X}}`}`</script>", "<script>var a = `{{.X}}`;</script>", "{{define \"inner\"}}x{{end}}",
 }
 
 // failing / fine member bodies for history tests
@@ -16,13 +31,20 @@ var memberBodies = []string{
 }
 
 // genHIST: API histories over a set (and its clones): New, Parse*, assoc New, Lookup, Templates, Clone, Execute*.
-func genHIST(c *Ctx) {
+func genHist(c *Ctx, which string) {
 	c.stats.Rule = "random API histories (3–14 steps) over sets with helper templates shared between members, failing members, clones"
-	for i := 0; i < c.n(600, 30000); i++ {
+	for i := 0; i < c.n(400, 12000); i++ {
 		hb := newHistBuilder()
 		hb.add(Step{Op: "new", H: 0, Name: "root"})
 		// definitions
-		text := pick(c, memberBodies)
+		bodies := memberBodies
+		if which == "C08" || (which == "" && c.rng.Intn(4) == 0) {
+			bodies = append(append([]string{}, memberBodies...), nodeKindBodies...)
+		}
+		text := pick(c, bodies)
+		if c.rng.Intn(3) == 0 {
+			text = c.body(0)
+		}
 		for j := 0; j < 3; j++ {
 			if c.rng.Intn(4) != 0 {
 				text += fmt.Sprintf("{{define \"h%d\"}}%s{{end}}", j, pick(c, helperBodies))
@@ -30,7 +52,7 @@ func genHIST(c *Ctx) {
 		}
 		for j := 1; j <= 2; j++ {
 			if c.rng.Intn(3) != 0 {
-				text += fmt.Sprintf("{{define \"m%d\"}}%s{{end}}", j, pick(c, memberBodies))
+				text += fmt.Sprintf("{{define \"m%d\"}}%s{{end}}", j, pick(c, bodies))
 			}
 		}
 		if hb.add(Step{Op: "parse", H: 0, Text: text}) == "" {
@@ -80,6 +102,42 @@ func genHIST(c *Ctx) {
 			}
 		}
 		hist, r := hb.hist(), hb.result()
-		c.emit("tmpl.hist", []string{hist}, r, true, splitLast(r))
+		opName := "tmpl.hist"
+		if which != "" {
+			opName += "." + which
+		}
+		c.emit(opName, []string{hist}, r, true, histClass(r))
 	}
+}
+
+// histClass: coarse class of a history for the distribution report: does it contain an analysis error,
+// an execution error, a panic, a successful execution …
+func histClass(r string) string {
+	cls := ""
+	add := func(sub, tag string) {
+		if containsStr(r, sub) {
+			cls += tag
+		}
+	}
+	add("ok ", "O")
+	add("err:analysis", "A")
+	add("err:exec", "X")
+	add("err:parse-gate", "G")
+	add("err:clone", "C")
+	add("err:incomplete", "I")
+	add("err:undefined", "U")
+	add("panic", "P")
+	if cls == "" {
+		cls = "-"
+	}
+	return cls
+}
+
+func containsStr(s, sub string) bool {
+	for i := 0; i+len(sub) <= len(s); i++ {
+		if s[i:i+len(sub)] == sub {
+			return true
+		}
+	}
+	return false
 }
